@@ -16,8 +16,8 @@ theorem Inv.mkInterrupt {g : Ghost} {s : KState ℚ σ} (hi : Inv g s) (p : EvId
   · split
     · exact hi
     · simp only
-      refine Inv.schedule (hi.newEv _ [.intr s.events.size] rfl (fun p hm => by simp at hm)
-          (fun iv hm => by simpa using hm) (fun c hm => by simp at hm)) _ _ _ ?_ ?_ ?_
+      refine InvX.schedule (hi.newEv _ [.intr s.events.size] rfl (fun p hm => by simp at hm)
+          (fun iv hm => by simpa using hm) (fun c hm => by simp at hm)) _ _ ?_ ?_ ?_
       · rw [KState.ev_newEv, if_pos rfl]; simp
       · rw [KState.ev_newEv, if_pos rfl]; simp
       · intro b hb
@@ -155,7 +155,8 @@ theorem res_setGetQ (s : KState ℚ σ) (r r' : ResId) (l : List EvId) :
 /-- a queue entry is removed -/
 theorem Inv.dropPutQ {g : Ghost} {s : KState ℚ σ} (hi : Inv g s) (r : ResId) (e : EvId) : Inv g (_root_.dropPutQ s r e) := by
   unfold _root_.dropPutQ
-  refine ⟨hi.c.congr (SameC.of_events rfl rfl rfl), ?_, hi.l.congr (SameC.of_events rfl rfl rfl)⟩
+  refine ⟨hi.c.congr (SameC.of_events rfl rfl rfl), ?_, hi.l.congr (SameC.of_events rfl rfl rfl),
+    hi.s.congr (SameC.of_events rfl rfl rfl)⟩
   refine hi.q.transfer ?_ ?_ ?_ ?_
   · intro r'; rw [(res_setPutQ s r r' _).1]; split
     · exact (hi.q.putQ r).1.erase e
@@ -173,7 +174,8 @@ theorem Inv.dropPutQ {g : Ghost} {s : KState ℚ σ} (hi : Inv g s) (r : ResId) 
 
 theorem Inv.dropGetQ {g : Ghost} {s : KState ℚ σ} (hi : Inv g s) (r : ResId) (e : EvId) : Inv g (_root_.dropGetQ s r e) := by
   unfold _root_.dropGetQ
-  refine ⟨hi.c.congr (SameC.of_events rfl rfl rfl), ?_, hi.l.congr (SameC.of_events rfl rfl rfl)⟩
+  refine ⟨hi.c.congr (SameC.of_events rfl rfl rfl), ?_, hi.l.congr (SameC.of_events rfl rfl rfl),
+    hi.s.congr (SameC.of_events rfl rfl rfl)⟩
   refine hi.q.transfer ?_ ?_ ?_ ?_
   · intro r'; rw [(res_setGetQ s r r' _).2]; exact (hi.q.putQ r').1
   · intro r'; rw [(res_setGetQ s r r' _).1]; split
@@ -215,7 +217,8 @@ theorem Inv.trigger_dropPut {g : Ghost} {s : KState ℚ σ} (hi : Inv g s) (r : 
     unfold _root_.dropPutQ
     rw [(res_setPutQ _ r r' _).2]; rfl
   have hevx : ∀ x, x ≠ e → (_root_.dropPutQ (s.trigger e o) r e).ev x = s.ev x := fun x hx => ev_trigger_ne s e x o hx
-  refine ⟨⟨hc.congr (SameC.of_events rfl rfl rfl), ?_, hl.congr (SameC.of_events rfl rfl rfl)⟩, ?_⟩
+  refine ⟨⟨hc.congr (SameC.of_events rfl rfl rfl), ?_, hl.congr (SameC.of_events rfl rfl rfl),
+    (hi.s.trigger e o).congr (SameC.of_events rfl rfl rfl)⟩, ?_⟩
   · refine hi.q.transfer ?_ ?_ ?_ ?_
     · intro r'; rw [hq]; split
       · exact (hi.q.putQ r).1.erase e
@@ -273,7 +276,8 @@ theorem Inv.trigger_dropGet {g : Ghost} {s : KState ℚ σ} (hi : Inv g s) (r : 
     unfold _root_.dropGetQ
     rw [(res_setGetQ _ r r' _).2]; rfl
   have hevx : ∀ x, x ≠ e → (_root_.dropGetQ (s.trigger e o) r e).ev x = s.ev x := fun x hx => ev_trigger_ne s e x o hx
-  refine ⟨⟨hc.congr (SameC.of_events rfl rfl rfl), ?_, hl.congr (SameC.of_events rfl rfl rfl)⟩, ?_⟩
+  refine ⟨⟨hc.congr (SameC.of_events rfl rfl rfl), ?_, hl.congr (SameC.of_events rfl rfl rfl),
+    (hi.s.trigger e o).congr (SameC.of_events rfl rfl rfl)⟩, ?_⟩
   · refine hi.q.transfer ?_ ?_ ?_ ?_
     · intro r'; rw [hpq]; exact (hi.q.putQ r').1
     · intro r'; rw [hq]; split
@@ -443,14 +447,16 @@ theorem insertSorted_perm (s : KState ℚ σ) (e : EvId) : ∀ l : List EvId, (_
 theorem Inv.newPut {g : Ghost} {s : KState ℚ σ} (hi : Inv g s) (r : ResId) (rq : ReqData ℚ) :
     Inv g (_root_.enqPut (s.newLabelled { kind := .put r, cbs := some [.trigGet r], out := none, req := some rq }).1 r s.events.size) := by
   have h1 : Inv g (s.newLabelled { kind := .put r, cbs := some [.trigGet r], out := none, req := some rq }).1 :=
-    hi.newLabelled _ [.trigGet r] rfl (fun p hm => by simp at hm) (fun iv hm => by simp at hm) (fun c hm => by simp at hm)
+    hi.newLabelled_pending _ [.trigGet r] rfl (fun p hm => by simp at hm) (fun iv hm => by simp at hm)
+      (fun c hm => by simp at hm) rfl
   generalize hs1 : (s.newLabelled { kind := .put r, cbs := some [.trigGet r], out := none, req := some rq }).1 = s1 at h1
   have hres : ∀ r', s1.res r' = s.res r' := fun r' => by rw [← hs1]; rfl
   have hnew : (s1.ev s.events.size).kind = .put r ∧ (s1.ev s.events.size).out = none := by
     rw [← hs1, KState.ev_newLabelled, if_pos rfl]; exact ⟨rfl, rfl⟩
   have hfresh : s.events.size ∉ (s.res r).putQ := fun h => Nat.lt_irrefl _ (hi.q.mem_put_lt r _ h)
   unfold _root_.enqPut
-  refine ⟨h1.c.congr (SameC.of_events rfl rfl rfl), ?_, h1.l.congr (SameC.of_events rfl rfl rfl)⟩
+  refine ⟨h1.c.congr (SameC.of_events rfl rfl rfl), ?_, h1.l.congr (SameC.of_events rfl rfl rfl),
+    h1.s.congr (SameC.of_events rfl rfl rfl)⟩
   have hperm : ∀ l : List EvId, (if isPrioKind (s1.res r).kind then _root_.insertSorted s1 s.events.size l else l ++ [s.events.size]).Perm
       (s.events.size :: l) := by
     intro l
@@ -473,14 +479,16 @@ theorem Inv.newPut {g : Ghost} {s : KState ℚ σ} (hi : Inv g s) (r : ResId) (r
 theorem Inv.newGet {g : Ghost} {s : KState ℚ σ} (hi : Inv g s) (r : ResId) (rq : ReqData ℚ) :
     Inv g (_root_.enqGet (s.newLabelled { kind := .get r, cbs := some [.trigPut r], out := none, req := some rq }).1 r s.events.size) := by
   have h1 : Inv g (s.newLabelled { kind := .get r, cbs := some [.trigPut r], out := none, req := some rq }).1 :=
-    hi.newLabelled _ [.trigPut r] rfl (fun p hm => by simp at hm) (fun iv hm => by simp at hm) (fun c hm => by simp at hm)
+    hi.newLabelled_pending _ [.trigPut r] rfl (fun p hm => by simp at hm) (fun iv hm => by simp at hm)
+      (fun c hm => by simp at hm) rfl
   generalize hs1 : (s.newLabelled { kind := .get r, cbs := some [.trigPut r], out := none, req := some rq }).1 = s1 at h1
   have hres : ∀ r', s1.res r' = s.res r' := fun r' => by rw [← hs1]; rfl
   have hnew : (s1.ev s.events.size).kind = .get r ∧ (s1.ev s.events.size).out = none := by
     rw [← hs1, KState.ev_newLabelled, if_pos rfl]; exact ⟨rfl, rfl⟩
   have hfresh : s.events.size ∉ (s.res r).getQ := fun h => Nat.lt_irrefl _ (hi.q.mem_get_lt r _ h)
   unfold _root_.enqGet
-  refine ⟨h1.c.congr (SameC.of_events rfl rfl rfl), ?_, h1.l.congr (SameC.of_events rfl rfl rfl)⟩
+  refine ⟨h1.c.congr (SameC.of_events rfl rfl rfl), ?_, h1.l.congr (SameC.of_events rfl rfl rfl),
+    h1.s.congr (SameC.of_events rfl rfl rfl)⟩
   refine ⟨fun r' => ?_, fun r' => ?_⟩
   · rw [(res_setGetQ s1 r r' _).2]; exact h1.q.putQ r'
   · rw [(res_setGetQ s1 r r' _).1]
